@@ -2,6 +2,7 @@ SPECIFICATION MCSpec
 CONSTANTS
   NWriters = 2
   Mode = "local"
+  FirstUse = TRUE
   Recheck = FALSE
   TrackSched = TRUE
   CellMap = "separate"
